@@ -34,6 +34,10 @@ def gen_cases(tier, seed):
         if wk == "pshare2" or (wk in ("chain2", "fanin2", "mvchain2") and rnd.random() < 0.2):
             d["workload"]["persistent"] = "P" if wk == "pshare2" else rnd.choice(["Inputs - Intermediates", "All - Intermediates"])
             d["class"] += "/persistent"
+        if i % 8 == 5:
+            # shrinking chain: the buffer fits the last Einsum's tensors but not the first one's
+            d = gs.shrinking_chain_spec(rnd, rnd.choice([2, 2, 3]) if tier != "quick" else 2)
+            wk = d["workload"]["kind"]
         if len(d["workload"]["einsums"]) > 1:
             d["mapper"]["max_fused_loops"] = rnd.choice([0, 1, 2, "inf"])
             d["mapper"]["max_fused_loops_per_rank_variable"] = rnd.choice([1, 1, 2])
@@ -81,7 +85,14 @@ def run_case(case):
         rows = H.result_rows(H.run_mapper(d, case["metrics"]))
     except H.NoMapping:
         return {"status": "ok", "counters": {"no_valid_mapping": 1}}
-    except (AttributeError, TypeError, KeyError, IndexError, AssertionError) as ex:
+    except Exception as ex:
+        if type(ex).__name__ == "InvalidMappingError":
+            # the final detailed evaluation refuses a mapping the search selected: the returned front contains an
+            # invalid (e.g. oversubscribed) mapping
+            return {"status": "violation", "violations": [{"sig": "selected_mapping_rejected_by_final_evaluation",
+                    "witness": {"error": str(ex)[:300], "metrics": case["metrics"], "spec": gs.summary(d)}}], "counters": counters}
+        if not isinstance(ex, (AttributeError, TypeError, KeyError, IndexError, AssertionError)):
+            raise
         # an internal error of the mapper on a spec the frontend accepted (not a validation error)
         import traceback
         tb = traceback.extract_tb(ex.__traceback__)
